@@ -359,6 +359,28 @@ class SelfV:
         return "self"
 
 
+class MethodCallerV:
+    """operator.methodcaller(name, *args, **kwargs)"""
+
+    def __init__(self, name, args, kwargs):
+        self.name, self.args, self.kwargs = name, list(args), dict(kwargs)
+
+    def __repr__(self):
+        return "methodcaller(%r)" % self.name
+
+
+class OperatorV:
+    """operator.sub / add / mul / lt / ... : the infix operation as a callable"""
+    BIN = {"add": ast.Add, "sub": ast.Sub, "mul": ast.Mult, "truediv": ast.Div, "floordiv": ast.FloorDiv, "mod": ast.Mod}
+    CMP = {"lt": ast.Lt, "le": ast.LtE, "gt": ast.Gt, "ge": ast.GtE, "eq": ast.Eq, "ne": ast.NotEq}
+
+    def __init__(self, name):
+        self.name = name
+
+    def __repr__(self):
+        return "operator.%s" % self.name
+
+
 class ItemGetterV:
     """operator.itemgetter(i, ...)"""
 
@@ -552,10 +574,21 @@ class Interp:
                 raise Unsupported(st, "while loop not finished after 64 iterations")
         elif isinstance(st, ast.Try):
             self.exec_try(st, env)
+        elif isinstance(st, ast.With) and len(st.items) == 1 and self._suppressed(st.items[0].context_expr) is not None:
+            # with contextlib.suppress(E1, E2): body   ==   try: body / except (E1, E2): pass
+            names = self._suppressed(st.items[0].context_expr)
+            try:
+                self.exec_block(st.body, env)
+            except AbstractRaise as r:
+                if not (r.exc in names or "Exception" in names or "BaseException" in names or
+                        (r.exc in EXC_PARENTS and EXC_PARENTS[r.exc] & names)):
+                    raise
         elif isinstance(st, ast.With):
             opened = []
             for item in st.items:
                 v = self.eval(item.context_expr, env)
+                if isinstance(v, Opaque) and v.tag.startswith("module:contextlib."):
+                    raise Unsupported(st, "context manager %s" % v.tag[7:])
                 opened.append(v)
                 if item.optional_vars is not None:
                     self.assign(item.optional_vars, v, env)
@@ -1114,6 +1147,8 @@ class Interp:
                 if fac is not None:
                     obj.entries[k] = fac()
                     return obj.entries[k]
+                if getattr(obj, "missing_value", None) is not None:
+                    return obj.missing_value            # collections.Counter: a missing key reads as 0 and is not created
                 raise AbstractRaise("KeyError", node, detail="missing key %r" % (k,))
             return obj.entries[k]
         return self.w.load_subscript(self, obj, key, node)
@@ -1313,6 +1348,15 @@ class Interp:
                 isinstance(a, Const) and isinstance(a.v, int) for a in args):
             return ItemGetterV([a.v for a in args])
         if isinstance(f, ItemGetterV) and len(args) == 1 and not kwargs:
+            return self.apply_value(f, args, e)
+        if isinstance(f, Opaque) and f.tag.startswith("module:operator.") and f.tag[16:] in (set(OperatorV.BIN) | set(OperatorV.CMP)) and len(args) == 2 \
+                and not kwargs:
+            return self.apply_value(OperatorV(f.tag[16:]), args, e)
+        if isinstance(f, Opaque) and f.tag == "module:operator.methodcaller" and args and isinstance(args[0], Const) and isinstance(args[0].v, str):
+            return MethodCallerV(args[0].v, args[1:], kwargs)
+        if isinstance(f, MethodCallerV) and len(args) == 1 and not kwargs:
+            return self.apply_value(f, args, e)
+        if isinstance(f, OperatorV) and len(args) == 2 and not kwargs:
             return self.apply_value(f, args, e)
         if isinstance(f, Opaque) and f.tag.startswith("module:itertools."):
             r = self.call_itertools(f.tag.split(".", 1)[1], args, kwargs, e)
@@ -1563,6 +1607,10 @@ class Interp:
                 else:
                     raise Unsupported(node, "defaultdict factory %r" % (fac,))
             return d
+        if name == "map" and len(args) > 2 and not kwargs:
+            seqs = [self._seq(a, node) for a in args[1:]]
+            if all(q is not None for q in seqs):
+                return IterV([self.apply_value(args[0], list(xs), node) for xs in zip(*seqs)])
         if name in ("map", "filter") and len(args) == 2 and not kwargs:
             seq = self._seq(args[1], node)
             if seq is not None:
@@ -1675,6 +1723,8 @@ class Interp:
 
     def apply_value(self, f, args, node):
         """Call an abstract callable on already evaluated arguments."""
+        if isinstance(f, Opaque) and f.tag.startswith("module:operator.") and f.tag[16:] in (set(OperatorV.BIN) | set(OperatorV.CMP)):
+            f = OperatorV(f.tag[16:])
         if isinstance(f, LocalFuncV):
             return self.call_local(f, list(args), {}, node)
         if isinstance(f, LambdaV):
@@ -1713,6 +1763,15 @@ class Interp:
         if isinstance(f, ItemGetterV):
             outs = [self.load_subscript(args[0], Const(i), node) for i in f.idx]
             return outs[0] if len(outs) == 1 else TupleV(outs)
+        if isinstance(f, MethodCallerV) and len(args) == 1:
+            m = self.load_attr(args[0], f.name, node)
+            if isinstance(m, BoundMethod):
+                return self.call_method(m, list(f.args), dict(f.kwargs), node)
+            return self.w.call(self, m, list(f.args), dict(f.kwargs), node)
+        if isinstance(f, OperatorV) and len(args) == 2:
+            if f.name in OperatorV.BIN:
+                return self.binop(args[0], OperatorV.BIN[f.name](), args[1], node)
+            return Const(bool(self.compare(args[0], OperatorV.CMP[f.name](), args[1], node)))
         return self.w.call(self, f, list(args), {}, node)
 
     def type_of(self, v, node):
@@ -1906,6 +1965,20 @@ class Interp:
                 if v is not None:
                     return v
         return self.w.call_method(self, obj, name, args, kwargs, node)
+
+    def _suppressed(self, e):
+        """exception names of a ``contextlib.suppress(..)`` / ``suppress(..)`` expression, else None"""
+        if not (isinstance(e, ast.Call) and not e.keywords):
+            return None
+        f = e.func
+        dotted = None
+        if isinstance(f, ast.Attribute) and isinstance(f.value, ast.Name) and IMPORTED_NAMES.get(f.value.id) == "contextlib":
+            dotted = "contextlib." + f.attr
+        elif isinstance(f, ast.Name):
+            dotted = IMPORTED_NAMES.get(f.id)
+        if dotted != "contextlib.suppress":
+            return None
+        return {self.exc_name(a) for a in e.args}
 
     def exc_name(self, exc):
         if exc is None:
